@@ -55,6 +55,14 @@ def run(ctx):
                 out.add(n.comparators[0].attr)
             if isinstance(n, ast.Call) and isinstance(n.func, ast.Attribute) and n.func.attr in ("get", "__contains__") and is_self_attr(n.func.value):
                 out.add(n.func.value.attr)
+        # any(key in index for index in (self._a, self._b, ...)) - the tuple may be held in a local
+        tuples = {t.id: a.value for a in walk_no_nested(fn.node) if isinstance(a, ast.Assign) and isinstance(a.value, (ast.Tuple, ast.List)) for t in a.targets if isinstance(t, ast.Name)}
+        for n in ast.walk(fn.node):
+            if isinstance(n, (ast.GeneratorExp, ast.ListComp)) and len(n.generators) == 1 and isinstance(n.generators[0].target, ast.Name):
+                g = n.generators[0]
+                src = tuples.get(g.iter.id) if isinstance(g.iter, ast.Name) else g.iter
+                if isinstance(src, (ast.Tuple, ast.List)) and isinstance(n.elt, ast.Compare) and isinstance(n.elt.ops[0], ast.In) and isinstance(n.elt.comparators[0], ast.Name) and n.elt.comparators[0].id == g.target.id:
+                    out |= {e.attr for e in src.elts if is_self_attr(e)}
         return out
     cg_, cc_ = consulted(get), consulted(cont)
     for idx in sorted(written | cg_ | cc_):
@@ -205,24 +213,34 @@ def run(ctx):
     sub_add = ctx.func("Command.add_sub_command")
     tables = {}
     own_tests = []
+    def _conds_at(fn_, cfg_, node_):
+        out = []
+        for e in cfg_.nodes:
+            if e.kind in ("T", "F") and cfg_.dominates(e.id, node_.id) and isinstance(e.ast, ast.Call) and isinstance(e.ast.func, ast.Attribute):
+                out.append((e.ast.func.attr, e.kind == "T"))
+                rcv = e.ast.func.value
+                while isinstance(rcv, (ast.Attribute, ast.Call)):
+                    rcv = rcv.value if isinstance(rcv, ast.Attribute) else rcv.func
+                if isinstance(rcv, ast.Name) and rcv.id == "self" and e.ast.func.attr in ("is_enabled", "is_default", "is_anonymous"):
+                    own_tests.append((fn_, e.ast))
+        return out
+
     for fn in (app_add, sub_add):
         cfg = ctx.cfg(fn)
         tab = {}
-        for c in q.method_calls(fn, "add"):
-            if not is_self_attr(c.func.value):
-                continue
-            role = "default" if "default" in c.func.value.attr else ("named" if "named" in c.func.value.attr else "all")
-            cn = cfg.node_of(c)
-            conds = []
-            for e in cfg.nodes:
-                if e.kind in ("T", "F") and cfg.dominates(e.id, cn.id) and isinstance(e.ast, ast.Call) and isinstance(e.ast.func, ast.Attribute):
-                    conds.append((e.ast.func.attr, e.kind == "T"))
-                    rcv = e.ast.func.value
-                    while isinstance(rcv, (ast.Attribute, ast.Call)):
-                        rcv = rcv.value if isinstance(rcv, ast.Attribute) else rcv.func
-                    if isinstance(rcv, ast.Name) and rcv.id == "self" and e.ast.func.attr in ("is_enabled", "is_default", "is_anonymous"):
-                        own_tests.append((fn, e.ast))
-            tab[role] = tuple(sorted(conds))
+        # the filing may sit in a private helper of the same object that is handed the command and its config
+        scopes = [(fn, cfg, [])]
+        for c in q.calls(fn):
+            if isinstance(c.func, ast.Attribute) and isinstance(c.func.value, ast.Name) and c.func.value.id == "self" and fn.cls is not None and c.func.attr.startswith("_") and c.func.attr in fn.cls.methods:
+                h = fn.cls.methods[c.func.attr]
+                if q.method_calls(h, "add"):
+                    scopes.append((h, ctx.cfg(h), _conds_at(fn, cfg, cfg.node_of(c))))
+        for fn_, cfg_, outer in scopes:
+            for c in q.method_calls(fn_, "add"):
+                if not is_self_attr(c.func.value):
+                    continue
+                role = "default" if "default" in c.func.value.attr else ("named" if "named" in c.func.value.attr else "all")
+                tab[role] = tuple(sorted(outer + _conds_at(fn_, cfg_, cfg_.node_of(c))))
         tables[fn.short] = tab
     want = {"all": (("is_enabled", True),), "default": (("is_default", True), ("is_enabled", True)), "named": (("is_anonymous", False), ("is_enabled", True))}
     for fn in (app_add, sub_add):
